@@ -71,6 +71,9 @@ def make_judges(ctx):
             MAXW = d['n_word_max']          # "the configured maximum": the same statement with another cap
             extra = set()
         is_raw = False
+        if 'raw' in extra and 'n_word_max' in extra and isinstance(d['n_word_max'], int) and 8 <= d['n_word_max'] <= 64:
+            MAXW = d['n_word_max']
+            extra = extra - {'n_word_max'}
         if extra == {'raw'} and isinstance(d['raw'], bool):
             # a raw value given with its fraction length: the value is code * 2^-n_frac (only the word is inferred)
             is_raw = d['raw']
@@ -107,9 +110,7 @@ def make_judges(ctx):
             ctx.skip('infer:complex input')
             return
         if is_raw:
-            if any(v.denominator != 1 for v in vals):
-                return
-            vals = [v * R.lsb(d['n_frac']) for v in vals]
+            vals = [v * R.lsb(d['n_frac']) for v in vals]      # (raw values may carry fraction bits: floats, what the operators hand over)
         if not signed and any(v < 0 for v in vals):
             ctx.skip('infer:negative value for an unsigned format')
             return
@@ -350,6 +351,11 @@ def run_case(case, ctx):
             nfb = rng.randint(24, 30)
             _try(lambda: Fxp(big * 2 ** nfb, n_frac=nfb, raw=True, **kw))
             _try(lambda: Fxp([big * 2 ** nfb, 3 * 2 ** (nfb - 3)], n_frac=nfb, raw=True, **kw))
+            # raw values that carry fraction bits, and another configured maximum
+            _try(lambda: Fxp(float(kraw) + 0.5, n_frac=nfr, raw=True, **kw))
+            _try(lambda: Fxp(float(rng.randint(600, 4000)), n_frac=rng.randint(3, 6), raw=True, n_word_max=rng.choice([8, 10, 12]), **kw))
+            _try(lambda: Fxp([float(rng.randint(600, 4000)), 3.0], n_frac=4, raw=True, n_word_max=8, **kw))
+            _try(lambda: Fxp(rng.randint(600, 4000), n_frac=rng.randint(3, 6), raw=True, n_word_max=rng.choice([8, 10, 12]), **kw))
             ctx.floor_hit(('raw-with-fraction-length',))
         # another configured maximum
         nwm = rng.choice([16, 24, 32, 48])
